@@ -119,15 +119,29 @@ __CPROVER_assigns(self->client_mtu_)
 /* ---- the abstract attribute table (DESIGN.md 4.2): N attributes; handle mapping and access function pointers are abstract */
 size_t G_N;
 #define TABLE_OK (G_N >= 1 && G_N <= 65535)
-size_t G_ibh_ret; uint16_t G_ibh_arg; int G_ibh_calls;
+struct ibh_rec { size_t ret; uint16_t arg; size_t calls; } G_ibh;
+#define G_ibh_ret G_ibh.ret
+#define G_ibh_arg G_ibh.arg
+#define G_ibh_calls G_ibh.calls
 size_t index_by_handle(uint16_t handle)
 __CPROVER_requires(TABLE_OK)
 __CPROVER_ensures((__CPROVER_return_value == invalid_attribute_index || __CPROVER_return_value < G_N) && G_ibh_ret == __CPROVER_return_value && G_ibh_arg == handle && G_ibh_calls == __CPROVER_old(G_ibh_calls) + 1)
-__CPROVER_assigns(G_ibh_ret, G_ibh_arg, G_ibh_calls);
+__CPROVER_assigns(G_ibh);
 /* attribute_at( index ).access( args, index ): any access function of the data base (ACCESS contract: C06 / C09 prove it for the
    value, CCCD and declaration access functions): may write the first buffer_size bytes of the buffer for a read, never grows buffer_size */
-int G_acc_calls; size_t G_acc_index, G_acc_off, G_acc_size; int G_acc_type; uint8_t* G_acc_buf; bool G_acc_enc; int G_acc_ps; uint8_t* G_acc_cfg; void* G_acc_server;
-int G_acc_rc; size_t G_acc_out_size;
+struct acc_rec { size_t calls; size_t index, off, size; int type; uint8_t* buf; bool enc; int ps; uint8_t* cfg; void* server; int rc; size_t out_size; } G_acc;
+#define G_acc_calls G_acc.calls
+#define G_acc_index G_acc.index
+#define G_acc_off G_acc.off
+#define G_acc_size G_acc.size
+#define G_acc_type G_acc.type
+#define G_acc_buf G_acc.buf
+#define G_acc_enc G_acc.enc
+#define G_acc_ps G_acc.ps
+#define G_acc_cfg G_acc.cfg
+#define G_acc_server G_acc.server
+#define G_acc_rc G_acc.rc
+#define G_acc_out_size G_acc.out_size
 enum attribute_access_result ACCESS(struct attribute_access_arguments* args, size_t index)
 __CPROVER_requires(TABLE_OK && index < G_N && __CPROVER_rw_ok(args, sizeof(*args)))
 __CPROVER_requires(args->buffer_size <= 65535 && (args->buffer_size == 0 || (args->type == attribute_access_type_read ? __CPROVER_rw_ok(args->buffer, args->buffer_size) : __CPROVER_r_ok(args->buffer, args->buffer_size))))
@@ -135,7 +149,7 @@ __CPROVER_ensures(args->buffer_size <= __CPROVER_old(args->buffer_size) && G_acc
 __CPROVER_ensures(G_acc_calls == __CPROVER_old(G_acc_calls) + 1 && G_acc_index == index && G_acc_off == args->buffer_offset && G_acc_size == __CPROVER_old(args->buffer_size)
                   && G_acc_type == (int)args->type && G_acc_buf == args->buffer && G_acc_enc == args->connection_security.is_encrypted && G_acc_ps == (int)args->connection_security.pairing_status
                   && G_acc_cfg == args->client_config.data_ && G_acc_server == args->server && G_acc_rc == (int)__CPROVER_return_value)
-__CPROVER_assigns(args->buffer_size, G_acc_calls, G_acc_index, G_acc_off, G_acc_size, G_acc_type, G_acc_buf, G_acc_enc, G_acc_ps, G_acc_cfg, G_acc_server, G_acc_rc, G_acc_out_size)
+__CPROVER_assigns(args->buffer_size, G_acc)
 __CPROVER_assigns(args->type == attribute_access_type_read && args->buffer_size != 0: __CPROVER_object_upto(args->buffer, args->buffer_size));
 
 /* ---- attribute_access_arguments::read / ::write (attribute.hpp), real bodies */
@@ -160,9 +174,12 @@ __CPROVER_assigns()
 bool check_handle_(struct server* self, const uint8_t* input, size_t in_size, uint8_t* output, size_t* out_size, uint16_t* handle, size_t* index)
 __CPROVER_requires(TABLE_OK && in_size >= 3 && IN_OK(input, in_size) && OUT_OK(output, out_size) && __CPROVER_rw_ok(handle, 2) && __CPROVER_rw_ok(index, sizeof(size_t)))
 __CPROVER_ensures(*handle == (uint16_t)(input[1] | (input[2] << 8)))
-__CPROVER_ensures(__CPROVER_return_value ? (*handle != 0 && *index < G_N && *index == G_ibh_ret && G_ibh_arg == *handle && *out_size == __CPROVER_old(*out_size))
+/* the index is looked up exactly when the handle is not 0; the request passes iff the handle designates an attribute */
+__CPROVER_ensures(G_ibh_calls == __CPROVER_old(G_ibh_calls) + (*handle != 0 ? 1 : 0) && (*handle != 0 ==> G_ibh_arg == *handle))
+__CPROVER_ensures(__CPROVER_return_value == (*handle != 0 && G_ibh_ret != invalid_attribute_index))
+__CPROVER_ensures(__CPROVER_return_value ? (*index < G_N && *index == G_ibh_ret && *out_size == __CPROVER_old(*out_size))
                                          : IS_ERROR_H(output, out_size, input[0], *handle, att_error_codes_invalid_handle))
-__CPROVER_assigns(*handle, *index, *out_size, __CPROVER_object_upto(output, 5), G_ibh_ret, G_ibh_arg, G_ibh_calls)
+__CPROVER_assigns(*handle, *index, *out_size, __CPROVER_object_upto(output, 5), G_ibh)
 {{check_handle}}
 #define check_handle(i, n, o, osz, h, ix) check_handle_(self, (i), (n), (o), &(osz), &(h), &(ix))
 '''
